@@ -30,6 +30,11 @@ class Untranslatable(Exception):
     pass
 
 
+class NeedFork(Exception):
+    """a setter conditional on a translatable condition over its parameters: evaluate each path separately"""
+    pass
+
+
 # ------------------------------------------------------------------------------------------------ AST loading
 
 def clang_docs(src_dir, fname, filt='N2k'):
@@ -277,8 +282,9 @@ class Frame:
 
 
 class Eval:
-    def __init__(self, world, fn, mode, known=None):
+    def __init__(self, world, fn, mode, known=None, decisions=None, fork=False):
         self.w, self.fn, self.mode = world, fn, mode
+        self.decisions, self.fork, self.path = list(decisions or []), fork, []
         self.payload = []           # setter: atoms
         self.scaled = {}            # field -> rec
         self.pgn = None
@@ -680,12 +686,19 @@ class Eval:
                         atoms.append((x, y))
                 if len(atoms) == 1 and atoms[0][1] == (1 if op == '==' else 0):
                     return Int([atoms[0][0]])
+            if (ca is None) != (cb is None) and t[0] == 'int' and t[1] == 1:
+                # symbolic value compared with a constant: keep the comparison as a condition atom
+                sym, c, o2 = (a, cb, op) if cb is not None else (b, ca, {'<': '>', '>': '<', '<=': '>=', '>=': '<='}.get(op, op))
+                if all(x in (0, 1) or (isinstance(x, tuple) and x[0] in ('p', 'b')) for x in sym.bits):
+                    return Int([('c', ('cmp', o2, tuple(sym.bits), bool(sym.signed and sym.bits and sym.bits[-1] != 0), c))])
             return Unknown('comparison of symbolic values')
         if op in ('&&', '||'):
             if len(a.bits) == 1 and len(b.bits) == 1:
                 x, y = a.bits[0], b.bits[0]
                 if op == '&&' and isinstance(x, tuple) and isinstance(y, tuple) and x[0] == 'hc' and y[0] == 'hc':
                     return Int([('hc', ('and', x[1], y[1]))])
+                if isinstance(x, tuple) and isinstance(y, tuple) and x[0] == 'c' and y[0] == 'c':
+                    return Int([('c', ('and' if op == '&&' else 'or', x[1], y[1]))])
                 r = self.and_bit(x, y) if op == '&&' else self.or_bit(x, y)
                 if r is not None:
                     return Int([r])
@@ -767,6 +780,8 @@ class Eval:
             b = self.to_bool(v)
             if isinstance(b, Int) and b.bits[0] in (0, 1):
                 return Int([1 - b.bits[0]])
+            if isinstance(b, Int) and isinstance(b.bits[0], tuple) and b.bits[0][0] == 'c':
+                return Int([('c', ('not', b.bits[0][1]))])
             return Unknown('logical not of symbolic value')
         if op in ('&', '*'):
             return Unknown('address/dereference')
@@ -1126,7 +1141,77 @@ class Eval:
             # must return exactly this condition (checked at the end)
             self.accept_cond = c.bits[0]
             return self.stmt(then)
+        if isinstance(c, Int) and isinstance(c.bits[0], tuple) and c.bits[0][0] == 'c' and self.depth == 0:
+            cond = c.bits[0][1]
+            if self.mode == 'set' and self.fork and self.param_cond(cond) is not None:
+                if len(self.path) < len(self.decisions):
+                    d = self.decisions[len(self.path)]
+                    self.path.append((self.param_cond(cond), d))
+                    if d:
+                        return self.stmt(then)
+                    return self.stmt(els) if els is not None else None
+                raise NeedFork()
+            if self.mode == 'parse' and self.known:
+                used = set()
+                d = self.decide(cond, used)
+                if d is not None:
+                    for k in sorted(used):
+                        if (k, self.known[k]) not in self.payload_guard:
+                            self.payload_guard.append((k, self.known[k]))
+                    self.notes.append('conditional decided by constants the setter writes (recorded as payload guard)')
+                    if d:
+                        return self.stmt(then)
+                    return self.stmt(els) if els is not None else None
         return self.symbolic_if(st, then, els)
+
+    def param_cond(self, cond):
+        """condition over whole unsigned integer parameters -> ('cmp', op, field, const) tree, else None"""
+        if cond[0] in ('and', 'or'):
+            a, b = self.param_cond(cond[1]), self.param_cond(cond[2])
+            return (cond[0], a, b) if a is not None and b is not None else None
+        if cond[0] == 'not':
+            a = self.param_cond(cond[1])
+            return ('not', a) if a is not None else None
+        _, op, bits, signed, c = cond
+        if signed or not bits or not (isinstance(bits[0], tuple) and bits[0][0] == 'p'):
+            return None
+        name = bits[0][1]
+        fd = self.fields[self.fieldidx[name]] if name in self.fieldidx else None
+        if fd is None or fd['kind'] != 'uint':
+            return None
+        for i, b in enumerate(bits):
+            if i < fd['bits']:
+                if b != ('p', name, i):
+                    return None
+            elif b != 0:
+                return None
+        return ('cmp', op, name, c) if c >= 0 else None
+
+    def decide(self, cond, used):
+        """truth value of a payload condition under the payload constants the paired setter path writes, or None"""
+        if cond[0] == 'not':
+            d = self.decide(cond[1], used)
+            return None if d is None else (not d)
+        if cond[0] in ('and', 'or'):
+            a, b = self.decide(cond[1], used), self.decide(cond[2], used)
+            if a is None or b is None:
+                return None
+            return (a and b) if cond[0] == 'and' else (a or b)
+        _, op, bits, signed, c = cond
+        v, mine = 0, set()
+        for i, b in enumerate(bits):
+            if b in (0, 1):
+                bit = b
+            elif isinstance(b, tuple) and b[0] == 'b' and b[1] in self.known:
+                bit = self.known[b[1]]
+                mine.add(b[1])
+            else:
+                return None
+            v |= bit << i
+        if signed and bits and (v >> (len(bits) - 1)) & 1:
+            v -= 1 << len(bits)
+        used |= mine
+        return {'==': v == c, '!=': v != c, '<': v < c, '>': v > c, '<=': v <= c, '>=': v >= c}[op]
 
     def is_return_false(self, st):
         if st['kind'] == 'CompoundStmt' and len(st.get('inner', [])) == 1:
@@ -1294,9 +1379,30 @@ def pgn_of_name(name):
     return int(m.group(1)) if m else None
 
 
-def translate_function(world, fn, mode):
+def setter_paths(world, fn, limit=3):
+    """every path of a setter through conditionals on its integer parameters: [Eval]; [] when there is none or one"""
+    out = []
+
+    def go(dec):
+        try:
+            ev = Eval(world, fn, 'set', decisions=dec, fork=True)
+            ev.run()
+            out.append(ev)
+        except NeedFork:
+            if len(dec) >= limit:
+                raise Untranslatable('more than %d nested parameter conditionals' % limit)
+            go(dec + [True])
+            go(dec + [False])
     try:
-        ev = Eval(world, fn, mode)
+        go([])
+    except (Untranslatable, KeyError, IndexError, TypeError, ValueError):
+        return []
+    return out if len(out) > 1 else []
+
+
+def translate_function(world, fn, mode, known=None):
+    try:
+        ev = Eval(world, fn, mode, known=known)
         ev.run()
         return ev, None
     except Untranslatable as e:
@@ -1344,17 +1450,73 @@ class PairResult:
     pass
 
 
-def build_pair(world, pid, sfn, pfn, stats):
+def cond_and(conds):
+    out = None
+    for c, d in conds:
+        c = c if d else ('not', c)
+        out = c if out is None else ('and', out, c)
+    return out
+
+
+def build_pairs(world, pid, sfn, pfn, stats):
+    """the pair itself, followed by one variant per path when the setter branches on its integer parameters"""
+    base = build_pair(world, pid, sfn, pfn, stats)
+    out = [base]
+    paths = setter_paths(world, sfn) if sfn else []
+    for k, Sv in enumerate(paths):
+        suffix = ''.join('t' if d else 'e' for _, d in Sv.path) or str(k)
+        known = {i: b for i, b in enumerate(Sv.payload) if b in (0, 1) and not isinstance(b, bool)}
+        R = build_pair(world, '%s_%s' % (pid, suffix), sfn, pfn, stats, S=Sv, known=known)
+        R['variant_of'] = pid
+        R['set_cond'] = cond_and(Sv.path)
+        R['notes'].insert(0, 'variant of %s: the setter path taken when %s' % (pid, cond_text(R['set_cond'])))
+        out.append(R)
+    if paths:
+        base['notes'].append('%d path variants follow (%s)' % (len(paths), ', '.join(r['id'] for r in out[1:])))
+    return out
+
+
+def lean_cond(c, idx):
+    if c is None:
+        return '.tt'
+    if c[0] == 'cmp':
+        return '(.%s %d %d)' % ({'==': 'eq', '!=': 'ne', '<': 'lt', '<=': 'le', '>': 'gt', '>=': 'ge'}[c[1]], idx[c[2]], c[3])
+    if c[0] == 'not':
+        return '(.not %s)' % lean_cond(c[1], idx)
+    return '(.%s %s %s)' % (c[0], lean_cond(c[1], idx), lean_cond(c[2], idx))
+
+
+def cpp_cond(c, idx):
+    if c is None:
+        return 'true'
+    if c[0] == 'cmp':
+        return '((unsigned long long)v[%d].i %s %dULL)' % (idx[c[2]], c[1], c[3])
+    if c[0] == 'not':
+        return '(!%s)' % cpp_cond(c[1], idx)
+    return '(%s %s %s)' % (cpp_cond(c[1], idx), '&&' if c[0] == 'and' else '||', cpp_cond(c[2], idx))
+
+
+def cond_text(c):
+    if c is None:
+        return 'true'
+    if c[0] == 'cmp':
+        return '%s %s %d' % (c[2], c[1], c[3])
+    if c[0] == 'not':
+        return '!(%s)' % cond_text(c[1])
+    return '(%s %s %s)' % (cond_text(c[1]), '&&' if c[0] == 'and' else '||', cond_text(c[2]))
+
+
+def build_pair(world, pid, sfn, pfn, stats, S=None, known=None):
     """-> dict describing the pair (layouts, obligations) ; records fallbacks in stats"""
     R = dict(id=pid, file=world.fname, setter_name=sfn['name'] if sfn else None, parser_name=pfn['name'] if pfn else None,
              setter_ok=False, parser_ok=False, notes=[])
-    S = P = None
-    if sfn:
+    P = None
+    if sfn and S is None:
         S, err = translate_function(world, sfn, 'set')
         if err:
             R['notes'].append('setter not translated: ' + err)
     if pfn:
-        P, err = translate_function(world, pfn, 'parse')
+        P, err = translate_function(world, pfn, 'parse', known=known)
         if err:
             R['notes'].append('parser not translated: ' + err)
     R['S'], R['P'] = S, P
@@ -1478,6 +1640,14 @@ def build_pair(world, pid, sfn, pfn, stats):
                 pscaled.pop(n_, None)
                 opaque.append(n_)
                 R['notes'].append('parser output %s lies beyond the translated setter prefix' % n_)
+    # an integer parameter none of whose bits reaches the payload (a constant is written instead on this path)
+    for n_ in list(pouts):
+        sf_ = info[n_].get('sfield')
+        if S and sf_ and sf_['kind'] in ('uint', 'sint') and widths[idx[n_]] == 0:
+            del pouts[n_]
+            pscaled.pop(n_, None)
+            opaque.append(n_)
+            R['notes'].append('parameter %s is not stored by the setter on this path: no obligation' % n_)
     R['checked'] = [idx[n] for n in names if n in pouts and info[n]['in_setter'] and info[n].get('sfield', {}).get('kind') not in ('text', 'other')
                     and S is not None]
     return R
@@ -1576,10 +1746,10 @@ def collect(src_dir):
                 k += 1
                 if best is not None:
                     used.add(best)
-                    results.append(build_pair(w, pid, s, ps[best], stats))
+                    results.extend(build_pairs(w, pid, s, ps[best], stats))
                     stats['pairs'] += 1
                 else:
-                    results.append(build_pair(w, pid, s, None, stats))
+                    results.extend(build_pairs(w, pid, s, None, stats))
                     stats['setter_only'] += 1
             for j, p in enumerate(ps):
                 if j not in used:
@@ -1675,6 +1845,9 @@ def emit_lean(results, gen_dir, stats):
         L.append('  setterPrefixOnly := %s' % ('true' if R.get('setter_tail') else 'false'))
         L.append('  parserOK := %s' % ('true' if R['parser_ok'] else 'false'))
         L.append('  signedInts := [%s]' % ', '.join(str(i) for i, n_ in enumerate(names) if R['info'][n_].get('sfield', {}).get('kind') == 'sint'))
+        if R.get('variant_of'):
+            L.append('  variantOf := "%s"' % R['variant_of'])
+            L.append('  setCond := %s' % lean_cond(R.get('set_cond'), idx))
         L.append('  intBits := [%s]' % ', '.join(str(R['info'][n_]['sfield']['bits'] if R['info'][n_].get('sfield', {}).get('kind') in ('sint', 'uint') else 0) for n_ in names))
         L.append('')
         pair_names.append(nm)
@@ -1843,14 +2016,16 @@ def emit_glue(results, path, worlds):
          'enum Kind { K_UINT, K_SINT, K_ENUM, K_BOOL, K_SCALED, K_UNION, K_TEXT };',
          'struct Field { const char *name; Kind kind; int typeBits; int pTypeBits; int W; bool inSetter, inParser;',
          '  int sW; bool sSigned; double sRes; int pW; bool pSigned; double pRes;',
-         '  const long long *enumerators; int nEnum; int modelOut; int textKind; int textLen; };',
+         '  const long long *enumerators; int nEnum; int textKind; int textLen; };',
+         '// how the Lean driver prints a `set` / `parse` line for the setter path `cond` / the messages matching `guard`',
+         'struct Variant { const char *id; bool (*cond)(const Val *); const int *guard; const int *modelOut;',
+         '  bool modelSetter, modelParser; int modelPrefixBytes; const int *unkBytes; int nUnk; };',
          'struct Pair { const char *id; unsigned long pgn; const Field *f; int nf;',
-         '  void (*set)(tN2kMsg &, const Val *); bool (*parse)(const tN2kMsg &, Val *);',
-         '  bool modelSetter, modelParser; int modelPrefixBytes; const int *unkBytes; int nUnk; };', '']
+         '  void (*set)(tN2kMsg &, const Val *); bool (*parse)(const tN2kMsg &, Val *); const Variant *v; int nv; };', '']
     table, skipped = [], []
     for R in results:
         S, P = R.get('S'), R.get('P')
-        if not (S and R['setter_name']):
+        if not (S and R['setter_name']) or R.get('variant_of'):
             continue
         cid = ident(R['id'])
         names = R['names']
@@ -1995,27 +2170,36 @@ def emit_glue(results, path, worlds):
             s_ = ssc.get(nm) or next((v for k, v in ssc.items() if k.lower() == nm.lower()), None)
             p_ = psc.get(nm) or next((v for k, v in psc.items() if k.lower() == nm.lower()), None)
             tx = stx.get(nm)
-            mo = 0
-            if nm in R['opaque']:
-                mo = 2
-            elif nm in R['pouts']:
-                mo = 1
-            flines.append('  {"%s", %s, %d, %d, %d, %s, %s, %d, %s, %s, %d, %s, %s, %s, %d, %d, %d, %d}' % (
+            flines.append('  {"%s", %s, %d, %d, %d, %s, %s, %d, %s, %s, %d, %s, %s, %s, %d, %d, %d}' % (
                 nm, kind, tb, ptb, R['widths'][i], 'true' if f.get('in_setter') and sf else 'false', 'true' if (pf or ptext) else 'false',
                 s_[0] if s_ else 0, 'true' if (s_ and s_[1]) else 'false', cdec(s_[2]) if s_ else '0.0',
                 p_[0] if p_ else 0, 'true' if (p_ and p_[1]) else 'false', cdec(p_[2]) if p_ else '0.0',
-                ('en_%s_%d' % (cid, i)) if en else 'nullptr', len(en) if en else 0, mo,
+                ('en_%s_%d' % (cid, i)) if en else 'nullptr', len(en) if en else 0,
                 {'str': 1, 'ais': 2, 'var': 3}.get(tx[0], 0) if tx else 0, (tx[1] or 0) if tx else 0))
         H.append('static const Field f_%s[] = {\n%s\n};' % (cid, ',\n'.join(flines)))
         H.append('static void set_%s(tN2kMsg &m, const Val *v) {\n%s\n  %s(%s);\n}' % (cid, '\n'.join(set_lines), R['setter_name'], ', '.join(set_args)))
         if P:
             H.append('static bool parse_%s(const tN2kMsg &m, Val *v) {\n%s\n  bool r = %s(%s);\n%s\n  return r;\n}' % (
                 cid, '\n'.join(par_decl), R['parser_name'], ', '.join(par_args), '\n'.join(par_back)))
-        unk = sorted({k // 8 for k, b in enumerate(R['sbits']) if b is None})
-        H.append('static const int unk_%s[] = {%s};' % (cid, ', '.join(map(str, unk + [-1]))))
-        table.append('  {"%s", %dUL, f_%s, %d, set_%s, %s, %s, %s, %d, unk_%s, %d}' % (
-            R['id'], R['pgn'] or 0, cid, len(names), cid, ('parse_' + cid) if P else 'nullptr', 'true' if R['setter_ok'] else 'false', 'true' if R['parser_ok'] else 'false',
-            (len(R['sbits']) // 8) if R.get('setter_tail') else -1, cid, len(unk)))
+        vrows = []
+        variants = [V for V in results if V.get('variant_of') == R['id']] + [R]     # the pair itself is the fallback
+        for V in variants:
+            vid = ident(V['id'])
+            vidx = {n: i for i, n in enumerate(V['names'])}
+            if V['names'] != names:
+                raise RuntimeError('variant %s has a different field table' % V['id'])
+            unk = sorted({k // 8 for k, b in enumerate(V['sbits']) if b is None})
+            H.append('static const int unk_%s[] = {%s};' % (vid, ', '.join(map(str, unk + [-1]))))
+            H.append('static const int mo_%s[] = {%s};' % (vid, ', '.join('2' if n in V['opaque'] else ('1' if n in V['pouts'] else '0') for n in names)))
+            H.append('static const int gd_%s[] = {%s-1};' % (vid, ''.join('%d, %d, ' % (k, b) for k, b in V.get('payload_guard', []) or [])))
+            if V.get('variant_of'):
+                H.append('static bool cond_%s(const Val *v) { return %s; }' % (vid, cpp_cond(V.get('set_cond'), vidx)))
+            vrows.append('  {"%s", %s, gd_%s, mo_%s, %s, %s, %d, unk_%s, %d}' % (
+                V['id'], ('cond_' + vid) if V.get('variant_of') else 'nullptr', vid, vid, 'true' if V['setter_ok'] else 'false',
+                'true' if V['parser_ok'] else 'false', (len(V['sbits']) // 8) if V.get('setter_tail') else -1, vid, len(unk)))
+        H.append('static const Variant v_%s[] = {\n%s\n};' % (cid, ',\n'.join(vrows)))
+        table.append('  {"%s", %dUL, f_%s, %d, set_%s, %s, v_%s, %d}' % (
+            R['id'], R['pgn'] or 0, cid, len(names), cid, ('parse_' + cid) if P else 'nullptr', cid, len(vrows)))
         H.append('')
     H.append('static const Pair pairs[] = {\n%s\n};' % ',\n'.join(table))
     H.append('static const int nPairs = %d;' % len(table))
